@@ -13,10 +13,14 @@ import (
 )
 
 const rule = "cases are histories of updater API calls (AddResource, SelectVersions, GetFile, Blacklist, Purge(keep), " +
-	"GetSelectedVersions, GetVersion, registry flags, files put on disk) on a fresh ResourceRegistry with real files, every call " +
+	"File.Blacklist, File.Unpack, AnyVersionAvailable, GetSelectedVersions, GetVersion, registry flags, files put on disk; implementation only: files deleted by the environment before a purge) on a fresh ResourceRegistry with real files, every call " +
 	"followed by a dump of all resources (version list in order with flags, selected, active, index) and of the storage " +
 	"directory, compared line by line with the Lean model; generators: random histories, update life cycles " +
-	"(scan, index, select, get, newer versions, purge), selection tables (one version set under all 8 registry-flag x 3 index " +
+	"(scan, index, select, get, newer versions, purge), release moves (the current release announced through AddResource / " +
+	"AddResources / Resource.AddVersion moves between already known versions, back to an older one and forward again, with and " +
+	"without files, blacklisted and pre-release entries in between, failed announcements, each move followed by " +
+	"SelectVersions / GetFile / Purge; the monitor judges the selection against the version announced last, which it " +
+	"records from the calls, not against the CurrentRelease flags), selection tables (one version set under all 8 registry-flag x 3 index " +
 	"combinations), purge grids (3..16 versions x keep in -3..100, with unsorted tails), blacklist runs; versions from a small " +
 	"pool (stable, pre-release, 0.0.0 and its pre-releases) in canonical and non-canonical spelling, malformed versions; " +
 	"file-name round trips over the documented format and near-misses; version ordering against go-version; a malformed op " +
@@ -46,7 +50,7 @@ func encTok(s string) string {
 		return "x:-"
 	}
 	for i := 0; i < len(s); i++ {
-		if s[i] <= ' ' || s[i] > '~' || s[i] == '|' || s[i] == ',' {
+		if s[i] <= ' ' || s[i] > '~' || s[i] == '|' || s[i] == ',' || s[i] == '=' {
 			return "x:" + hxlib.Hex([]byte(s))
 		}
 	}
@@ -128,10 +132,11 @@ type hist struct {
 	inModelOnly bool // do not draw version strings outside the model's syntax
 	selOps      int
 	nVer        int
+	created     map[string]bool // resources the registry has (any AddResource call creates one, also a failing one)
 }
 
 func newHist(r *hxlib.Run, nIDs int) *hist {
-	h := &hist{r: r, known: map[string][]string{}}
+	h := &hist{r: r, known: map[string][]string{}, created: map[string]bool{}}
 	perm := r.Rng.Perm(len(idPool))
 	for i := 0; i < nIDs; i++ {
 		h.ids = append(h.ids, idPool[perm[i]])
@@ -161,6 +166,10 @@ func (h *hist) add(id, raw, a, c, p, idx string) {
 	}
 	h.op("add %s %s %s %s %s %s", id, encTok(raw), a, c, p, idx)
 	h.r.Count("op:add")
+	h.created[id] = true
+	if c == "1" {
+		h.r.Count("announce:AddResource")
+	}
 	if sv, err := semver.NewVersion(raw); err == nil {
 		n := sv.String()
 		if !in(n, h.known[id]) {
@@ -183,6 +192,49 @@ func (h *hist) add(id, raw, a, c, p, idx string) {
 	}
 }
 
+// note registers a version string the implementation will accept (for later ops that name known versions)
+func (h *hist) note(id, raw string) {
+	if !inModel(raw) {
+		h.noModel = true
+		h.r.Count("version:outside-model")
+	}
+	if sv, err := semver.NewVersion(raw); err == nil {
+		if n := sv.String(); !in(n, h.known[id]) {
+			h.known[id] = append(h.known[id], n)
+			h.nVer++
+		}
+	}
+}
+
+// addv: Resource.AddVersion directly (no index change); refused for a resource the registry does not have
+func (h *hist) addv(id, raw, a, c, p string) {
+	if h.created[id] {
+		h.note(id, raw)
+	}
+	h.op("addv %s %s %s %s %s", id, encTok(raw), a, c, p)
+	h.r.Count("op:addv")
+	if c == "1" {
+		h.r.Count("announce:AddVersion")
+	}
+}
+
+// addmany: AddResources with one index and one set of flags for several resources (what loading an index file does)
+func (h *hist) addmany(items map[string]string, a, c, p, idx string) {
+	line := fmt.Sprintf("addmany %s %s %s %s", a, c, p, idx)
+	for _, id := range h.ids {
+		if raw, ok := items[id]; ok {
+			h.note(id, raw)
+			h.created[id] = true
+			line += " " + encTok(id) + "=" + encTok(raw)
+		}
+	}
+	h.op("%s", line)
+	h.r.Count("op:addmany")
+	if c == "1" {
+		h.r.Count("announce:AddResources")
+	}
+}
+
 func (h *hist) randIdx() string { return pick(h.r.Rng, "nil", "auto", "auto", "noauto") }
 
 func (h *hist) randAdd(id string) {
@@ -195,8 +247,49 @@ func (h *hist) randAdd(id string) {
 		raw = pick(rng, outOfModel...)
 	case x < 16 && len(h.known[id]) > 0:
 		raw = pick(rng, h.known[id]...) // again, other flags
+	case x < 26 && len(h.known[id]) > 0:
+		// the current release moves to a version the resource already knows (older or newer than the previous one)
+		h.announce(id, spell(rng, pick(rng, h.known[id]...)), bit(rng, 40), bit(rng, 5))
+		return
+	case x < 30:
+		h.addv(id, raw, bit(rng, 65), bit(rng, 25), bit(rng, 10))
+		return
+	case x < 33:
+		items := map[string]string{}
+		for _, i := range h.ids {
+			if rng.Intn(3) > 0 {
+				items[i] = spell(rng, canonVer(rng))
+				if len(h.known[i]) > 0 && rng.Intn(2) == 0 {
+					items[i] = pick(rng, h.known[i]...)
+				}
+			}
+		}
+		if len(items) > 0 {
+			h.addmany(items, bit(rng, 50), bit(rng, 50), bit(rng, 10), h.randIdx())
+			return
+		}
 	}
 	h.add(id, raw, bit(rng, 65), bit(rng, 12), bit(rng, 10), h.randIdx())
+}
+
+// announce makes raw the current release of id through one of the three API paths.
+func (h *hist) announce(id, raw, a, p string) {
+	rng := h.r.Rng
+	idx := pick(rng, "auto", "auto", "noauto", "nil")
+	switch x := rng.Intn(10); {
+	case x < 5:
+		h.add(id, raw, a, "1", p, idx)
+	case x < 8:
+		items := map[string]string{id: raw}
+		for _, o := range h.ids {
+			if o != id && len(h.known[o]) > 0 && rng.Intn(2) == 0 {
+				items[o] = pick(rng, h.known[o]...)
+			}
+		}
+		h.addmany(items, a, "1", p, idx)
+	default:
+		h.addv(id, raw, a, "1", p)
+	}
 }
 
 func (h *hist) knownVer(id string) string {
@@ -228,6 +321,18 @@ func (h *hist) blacklist(id, ver string) {
 	h.r.Count("op:blacklist")
 }
 
+// File.Unpack of the file handed out last
+func (h *hist) unpack(id string) {
+	h.op("unpack %s", id)
+	h.r.Count("op:unpack")
+}
+
+// File.Blacklist on the file handed out last
+func (h *hist) fblacklist(id string) {
+	h.op("fblacklist %s", id)
+	h.r.Count("op:fblacklist")
+}
+
 func (h *hist) purge(k int) {
 	h.op("purge %d", k)
 	h.selOps++
@@ -244,10 +349,14 @@ func (h *hist) touch(id string) {
 }
 
 func (h *hist) query() {
-	if h.r.Rng.Intn(2) == 0 {
+	switch x := h.r.Rng.Intn(5); {
+	case x < 2:
 		h.op("selected")
 		h.r.Count("op:selected")
-	} else {
+	case x == 2:
+		h.op("anyavail %s", h.id())
+		h.r.Count("op:anyavail")
+	default:
 		id := h.id()
 		if h.r.Rng.Intn(10) == 0 {
 			id = "unknown"
@@ -267,14 +376,18 @@ func (h *hist) randOp() {
 		h.selectOp()
 	case x < 63:
 		h.getfile(id)
-	case x < 71:
+	case x < 69:
 		h.blacklist(id, h.knownVer(id))
+	case x < 71:
+		h.fblacklist(id)
 	case x < 81:
 		h.purge(pick(rng, -1, 0, 1, 2, 2, 3, 4, 6))
 	case x < 87:
 		h.randFlags()
-	case x < 92:
+	case x < 90:
 		h.touch(id)
+	case x < 92:
+		h.unpack(id)
 	default:
 		h.query()
 	}
@@ -360,6 +473,9 @@ func genLifecycle(r *hxlib.Run, emit func(hxlib.Case)) {
 	for _, id := range h.ids {
 		if rng.Intn(4) > 0 {
 			h.getfile(id)
+			if rng.Intn(3) == 0 {
+				h.unpack(id)
+			}
 		}
 	}
 	if rng.Intn(2) == 0 {
@@ -387,6 +503,118 @@ func genLifecycle(r *hxlib.Run, emit func(hxlib.Case)) {
 		h.purge(pick(rng, 0, 2, 3))
 	}
 	h.emit(emit, "lifecycle")
+}
+
+// The current release moves between versions the resource already knows: back to an older one (a pulled release, an
+// index rollback) and forward again, with and without the files on disk, with blacklisted and pre-release entries in
+// between, failed announcements, through every API path; each move is followed by SelectVersions / GetFile / Purge.
+func genReleaseMoves(r *hxlib.Run, emit func(hxlib.Case)) {
+	rng := r.Rng
+	h := newHist(r, 1+rng.Intn(2))
+	h.inModelOnly = true
+	// mostly outside dev mode (the dev step would hide the current release); offline and online
+	h.flags(bit(rng, 50), bit(rng, 8), bit(rng, 35))
+	pool := map[string][]string{}
+	for _, id := range h.ids {
+		n := 3 + rng.Intn(5)
+		allAvail := rng.Intn(3) == 0
+		for len(pool[id]) < n {
+			v := fmt.Sprintf("%d.%d.%d", 1+rng.Intn(2), rng.Intn(4), rng.Intn(3))
+			if rng.Intn(6) == 0 {
+				v += "-" + pick(rng, "beta", "rc", "alpha")
+			}
+			if !in(v, pool[id]) {
+				pool[id] = append(pool[id], v)
+			}
+		}
+		for _, v := range pool[id] {
+			a := bit(rng, 75)
+			if allAvail {
+				a = "1"
+			}
+			h.add(id, v, a, "0", bit(rng, 10), pick(rng, "nil", "auto", "auto", "noauto"))
+		}
+		if rng.Intn(3) == 0 {
+			h.add(id, "0.0.0", "1", "0", "0", "nil")
+		}
+	}
+	older := func(a, b string) bool {
+		return semver.Must(semver.NewVersion(a)).LessThan(semver.Must(semver.NewVersion(b)))
+	}
+	cur := map[string]string{}
+	moves := 3 + rng.Intn(6)
+	for m := 0; m < moves; m++ {
+		id := h.id()
+		// choose the direction of the move
+		var cands []string
+		back := rng.Intn(2) == 0
+		for _, v := range pool[id] {
+			if cur[id] == "" || (back && older(v, cur[id])) || (!back && older(cur[id], v)) {
+				cands = append(cands, v)
+			}
+		}
+		if len(cands) == 0 {
+			cands = pool[id]
+		}
+		next := pick(rng, cands...)
+		switch {
+		case cur[id] == "":
+			r.Count("release-move:first")
+		case older(next, cur[id]):
+			r.Count("release-move:back-to-known-older")
+		case older(cur[id], next):
+			r.Count("release-move:forward-to-known-newer")
+		default:
+			r.Count("release-move:same-again")
+		}
+		switch x := rng.Intn(20); {
+		case x == 0:
+			// the announcement fails: the property leaves open whether the previous current release stays
+			h.add(id, pick(rng, malformed...), "0", "1", "0", "auto")
+			r.Count("release-move:failed-announcement")
+		case x == 1:
+			// a brand-new current release
+			next = fmt.Sprintf("%d.%d.%d", 1+rng.Intn(3), 4+rng.Intn(3), rng.Intn(3))
+			pool[id] = append(pool[id], next)
+			h.announce(id, next, bit(rng, 50), "0")
+			cur[id] = next
+			r.Count("release-move:new-version")
+		default:
+			h.announce(id, spell(rng, next), bit(rng, 30), bit(rng, 5))
+			cur[id] = next
+		}
+		// something between the announcement and the selection
+		switch rng.Intn(8) {
+		case 0:
+			h.blacklist(id, pick(rng, pool[id]...))
+		case 1:
+			h.blacklist(id, cur[id]) // the current release itself is not selectable any more
+		case 2:
+			h.flags(bit(rng, 50), bit(rng, 8), bit(rng, 35))
+		case 3:
+			h.add(id, pick(rng, pool[id]...), "1", "0", "0", h.randIdx()) // a file arrives
+		}
+		if rng.Intn(6) > 0 {
+			h.selectOp()
+		}
+		if rng.Intn(3) == 0 {
+			h.getfile(id)
+		}
+		if rng.Intn(4) == 0 {
+			h.purge(pick(rng, 0, 1, 2, 2, 3))
+		}
+		if rng.Intn(6) == 0 {
+			h.query()
+		}
+	}
+	h.selectOp()
+	for _, id := range h.ids {
+		h.getfile(id)
+	}
+	h.purge(pick(rng, 0, 2, 3))
+	h.selectOp()
+	h.op("selected")
+	h.emit(emit, "release-moves")
 }
 
 func genSelectTable(r *hxlib.Run, emit func(hxlib.Case)) {
@@ -434,6 +662,9 @@ func genPurgeGrid(r *hxlib.Run, emit func(hxlib.Case)) {
 	}
 	if rng.Intn(3) > 0 {
 		h.getfile(id)
+		if rng.Intn(3) == 0 {
+			h.unpack(id)
+		}
 	}
 	if rng.Intn(3) == 0 {
 		h.randFlags()
@@ -450,6 +681,43 @@ func genPurgeGrid(r *hxlib.Run, emit func(hxlib.Case)) {
 		h.purge(pick(rng, 0, 2, 3))
 	}
 	h.emit(emit, "purge-grid")
+}
+
+// Implementation only: the environment deletes files behind the updater's back (a file, signature or unpacked copy of an old
+// version is gone although the version is listed as available), then Purge runs over them — the removal branches for
+// files that do not exist. The monitor's purge clauses hold whatever the environment did to versions that are not required.
+func genExternalDeletion(r *hxlib.Run, emit func(hxlib.Case)) {
+	rng := r.Rng
+	h := newHist(r, 1)
+	h.inModelOnly = true
+	id := h.ids[0]
+	h.flags(bit(rng, 50), "0", bit(rng, 30))
+	n := 5 + rng.Intn(8)
+	var vers []string
+	for i := 0; i < n; i++ {
+		vers = append(vers, fmt.Sprintf("1.%d.0", i))
+	}
+	for _, k := range rng.Perm(n) {
+		h.add(id, vers[k], "1", "0", "0", "nil")
+		if rng.Intn(3) == 0 {
+			h.op("touch %s %s %s", id, vers[k], pick(rng, "1", "2"))
+		}
+	}
+	h.selectOp()
+	h.getfile(id)
+	// the newest version is selected and active and the newest stable one: delete files of older versions only
+	for k := 0; k < n-1; k++ {
+		if rng.Intn(3) == 0 {
+			h.op("rm %s %s %s", id, vers[k], pick(rng, "0", "0", "1", "2"))
+			r.Count("op:rm")
+		}
+	}
+	h.purge(pick(rng, 0, 1, 2, 3))
+	h.selectOp()
+	h.op("anyavail %s", id)
+	h.purge(pick(rng, 0, 2))
+	h.noModel = true
+	h.emit(emit, "external-deletion")
 }
 
 func genBlacklistRun(r *hxlib.Run, emit func(hxlib.Case)) {
@@ -471,6 +739,11 @@ func genBlacklistRun(r *hxlib.Run, emit func(hxlib.Case)) {
 		h.blacklist(id, vers[k])
 		if rng.Intn(4) == 0 {
 			h.blacklist(id, vers[k])
+		}
+		if rng.Intn(4) == 0 {
+			// the file that was handed out turns out broken
+			h.getfile(id)
+			h.fblacklist(id)
 		}
 	}
 	h.blacklist(id, pick(rng, vers...))
@@ -597,7 +870,10 @@ func genOrder(r *hxlib.Run, emit func(hxlib.Case), n int) {
 func genMalformedOps(r *hxlib.Run, emit func(hxlib.Case)) {
 	lines := []string{"", "nonsense", "flags 1 0", "flags 2 0 0", "add app.exe 1.2.3 1 0 0", "add app.exe 1.2.3 1 0 0 maybe", "purge x", "purge", "getfile", "select now",
 		"blacklist app.exe", "dump all", "idver", "vpath x:61", "touch app.exe 1.0.0 1", "getfile app.exe", "getversion app.exe", "blacklist app.exe 1.0.0", "selected", "select", "purge 2", "dump",
-		"add app.exe x:- 1 1 1 nil", "dump", "touch app.exe 1.0.0 7", "touch app.exe 1.0.0 2", "touch app.exe zz 1", "add data 1.0.0 0 0 0 nil", "touch data 1.0.0 2", "touch data 1.0.0 1", "dump"}
+		"add app.exe x:- 1 1 1 nil", "dump", "touch app.exe 1.0.0 7", "touch app.exe 1.0.0 2", "touch app.exe zz 1", "add data 1.0.0 0 0 0 nil", "touch data 1.0.0 2", "touch data 1.0.0 1", "dump",
+		"addv", "addv nosuch 1.0.0 1 1 0", "addv data 1.1.0 1 1", "addv data 1.1.0 1 2 0", "addv data zz 0 1 0", "dump", "addmany", "addmany 1 1 0", "addmany 1 1 0 perhaps data=1.0.0",
+		"addmany 0 1 0 nil data", "addmany 0 1 0 nil data=1.0.0 data=1.1.0", "addmany 0 1 0 nil data=1.0.0=2", "addmany 0 1 0 auto", "addmany 0 1 0 auto data=1.0.0 app.exe=zz", "dump", "select", "dump",
+		"fblacklist", "fblacklist data", "anyavail", "anyavail nosuch", "anyavail data", "getfile data", "unpack data", "fblacklist data", "dump", "fblacklist nosuch", "unpack", "unpack nosuch", "add app.exe 1.0.0 1 0 0 nil", "unpack app.exe", "getfile app.exe", "unpack app.exe", "unpack app.exe", "dump"}
 	emit(hxlib.Case{Lines: lines, Kind: "malformed-ops"})
 }
 
@@ -625,6 +901,14 @@ func genCorpus(r *hxlib.Run, emit func(hxlib.Case)) {
 		"select", "getfile app.exe", "purge 2")
 	mk("corpus", "add app.exe 3.0.0 1 0 0 nil", "add app.exe 2.5.0 1 0 0 nil", "add app.exe 2.0.0 1 0 0 nil", "add app.exe 02.0.0 1 0 0 nil", "add app.exe 1.0.0 1 0 0 nil",
 		"select", "getfile app.exe", "purge 2")
+	// the current release goes forward and comes back to a known older version (pulled release), by each API path
+	for _, again := range []string{"add app.exe 1.2.0 0 1 0 auto", "addv app.exe 1.2.0 0 1 0", "addmany 0 1 0 auto app.exe=1.2.0", "add app.exe v1.2 1 1 0 nil"} {
+		mk("corpus", "add app.exe 1.1.0 1 0 0 nil", "add app.exe 1.2.0 1 0 0 nil", "add app.exe 1.3.0 1 0 0 nil", "add app.exe 1.2.0 0 1 0 auto", "select", "getfile app.exe",
+			"add app.exe 1.3.0 0 1 0 auto", "select", again, "select", "getfile app.exe", "purge 2", "select", "selected")
+	}
+	// two indexes name different current releases for versions known from the storage scan; the overriding one names the older
+	mk("corpus", "flags 1 0 0", "addmany 1 0 0 nil app.exe=2.0.0 data=1.0.0", "addmany 1 0 0 nil app.exe=2.1.0 data=1.1.0", "addmany 0 1 0 auto app.exe=2.1.0 data=1.1.0",
+		"addmany 0 1 0 auto app.exe=2.0.0 data=1.0.0", "select", "getfile app.exe", "getfile data", "purge 2")
 }
 
 func generate(r *hxlib.Run, emit func(hxlib.Case)) {
@@ -633,17 +917,21 @@ func generate(r *hxlib.Run, emit func(hxlib.Case)) {
 	genMalformedOps(r, emit)
 	genFilenames(r, emit, r.Budget(4000, 150000))
 	genOrder(r, emit, r.Budget(10000, 300000))
-	n := r.Budget(700, 18000)
+	n := r.Budget(700, 14000)
 	for i := 0; i < n; i++ {
 		genRandomHistory(r, emit)
 		genLifecycle(r, emit)
 		genPurgeGrid(r, emit)
+		genReleaseMoves(r, emit)
 		if i%2 == 0 {
 			genSelectTable(r, emit)
 			genBlacklistRun(r, emit)
 		}
 		if i%10 == 0 {
 			genLongHistory(r, emit)
+		}
+		if i%5 == 0 {
+			genExternalDeletion(r, emit)
 		}
 	}
 }
